@@ -23,7 +23,7 @@ PARTIAL = ['C08_roundtrip_partial: the DESIGN statement C08_roundtrip (forall st
            'each chunk-shape class) x 4 x 2, C08_classes_covered, C08_alphabet_is_table / C08_alphabet_spec; C08_roundtrip_partial is the '
            'restriction to strings of length <= 1 over the alphabet and length 2 over the representatives. Strings of length >= 3 and '
            'pairs of non-representatives are covered by the correspondence and the oracle on the real code only.']
-REFUTED = []
+REFUTED = ['C08_paragraph_whitespace_refuted: the unbounded round trip is false on whitespace runs with two or more newlines other than the bare blank line (known finding paragraph-whitespace-collapsed; the bare paragraph break round-trips: C08_paragraph_break_roundtrips)']
 CASE_TIMEOUT = 10.0
 PROTS = ['none', 'braces', 'braces-all', 'braces-almost-all', 'braces-after-macro']
 SCHEMES = PROTS[1:]
